@@ -93,7 +93,7 @@ func ruleVarintShape(c *Check, a *Analysis, rule string) {
 			isN := false
 			for _, e := range phi.Edges {
 				if x, y, ok := addOperands(e); ok {
-					if cc, isC := x.(*ssa.Call); isC && calleeName(cc) == "code.SizeofVarint" && cc.Call.Args[0] == y {
+					if varintSizeOf(p, x, y) || varintSizeOf(p, y, x) {
 						isN = true
 					}
 				}
@@ -336,8 +336,11 @@ func writerArmDefect(p *Prog, e ssa.Value, pred *ssa.BasicBlock) string {
 	if !ok {
 		return "unrecognised byte count " + describe(e)
 	}
-	if cc, isC := x.(*ssa.Call); isC && calleeName(cc) == "code.SizeofVarint" {
-		if cc.Call.Args[0] != y {
+	if !isVarintSizeCall(p, x) && isVarintSizeCall(p, y) {
+		x, y = y, x
+	}
+	if cc, isC := x.(*ssa.Call); isC && isVarintSizeCall(p, x) {
+		if !varintSizeOf(p, x, y) {
 			return "the long arm advances by lengthSize + something other than the length"
 		}
 		// payload copied at base+lengthSize (searched in the loop's exit block = pred)
@@ -468,4 +471,62 @@ func readerArmDefect(p *Prog, fn *ssa.Function, e ssa.Value) string {
 		return "the short arm's payload is not data[offset+1 : offset+s]"
 	}
 	return bad
+}
+
+// isVarintSizeCall: v is code.SizeofVarint(…), or a call to a plain helper that returns
+// code.SizeofVarint of one of its parameters (a varint writer returning the bytes written).
+func isVarintSizeCall(p *Prog, v ssa.Value) bool {
+	_, ok := varintSizeArg(p, v)
+	return ok
+}
+
+// varintSizeArg returns the value whose varint size v is.
+func varintSizeArg(p *Prog, v ssa.Value) (ssa.Value, bool) {
+	cc, ok := v.(*ssa.Call)
+	if !ok {
+		return nil, false
+	}
+	if calleeName(cc) == "code.SizeofVarint" {
+		return cc.Call.Args[0], true
+	}
+	h := cc.Common().StaticCallee()
+	if h == nil || !p.isPlainHelper(h) {
+		return nil, false
+	}
+	var res ssa.Value
+	okAll := true
+	eachInstrLocal(h, func(in ssa.Instruction) {
+		r, isR := in.(*ssa.Return)
+		if !isR {
+			return
+		}
+		if len(r.Results) != 1 {
+			okAll = false
+			return
+		}
+		in2, ok2 := r.Results[0].(*ssa.Call)
+		if !ok2 || calleeName(in2) != "code.SizeofVarint" {
+			okAll = false
+			return
+		}
+		prm, isP := in2.Call.Args[0].(*ssa.Parameter)
+		if !isP {
+			okAll = false
+			return
+		}
+		for i, q := range h.Params {
+			if q == prm && i < len(cc.Call.Args) {
+				res = cc.Call.Args[i]
+			}
+		}
+	})
+	if !okAll || res == nil {
+		return nil, false
+	}
+	return res, true
+}
+
+func varintSizeOf(p *Prog, sz, l ssa.Value) bool {
+	a, ok := varintSizeArg(p, sz)
+	return ok && a == l
 }
